@@ -42,7 +42,7 @@ func leafForms() []int {
 		for i := 0; i < lfCount; i++ {
 			all = append(all, i)
 		}
-		return append(all, lfEmptyQuoted, lfNonASCII, lfEqSpecial, lfListInt, lfRangeBig, lfEqBig, lfWildField, lfQuotedDigits, lfRangeMixed, lfQuotedWild, lfQuotedRegexp, lfFloatWhole, lfEqHuge, lfRegexpBackslash, lfNonASCII3, lfFloatExp, lfRangeQuotedSpace, lfListNested)
+		return append(all, lfEmptyQuoted, lfNonASCII, lfEqSpecial, lfListInt, lfRangeBig, lfEqBig, lfWildField, lfQuotedDigits, lfRangeMixed, lfQuotedWild, lfQuotedRegexp, lfFloatWhole, lfEqHuge, lfRegexpBackslash, lfNonASCII3, lfFloatExp, lfRangeQuotedSpace, lfListNested, lfRangeLong, lfList11)
 	}
 	if rtParam("LEAVES") == 7 { // default-field alphabet: the full one plus quoted bare terms with wildcard characters
 		all := make([]int, 0, lfCount+2)
@@ -56,7 +56,7 @@ func leafForms() []int {
 		for i := 0; i < lfCount; i++ {
 			all = append(all, i)
 		}
-		return append(all, lfRangeFloat, lfRangeWhole, lfListInt)
+		return append(all, lfRangeFloat, lfRangeWhole, lfListInt, lfList11)
 	}
 	if rtParam("LEAVES") == 12 { // value lists whose parentheses nest to the right / to the left, next to a plain list
 		return []int{lfList, lfListNested, lfListLeftNested}
